@@ -757,6 +757,25 @@ def clone_value_cases():
             for k, v in c._data.items():
                 if lines_in(v):
                     return "clone of connected %r: field %s holds a line of the Gfa (%r)" % (str(l), k, type(v).__name__)
+    # a clone compares equal to its original (both ways, same text) also when a field holds a value that differs from its own copy
+    # under != though it is written in the same way: JSON given with keys that are not strings (the clone holds the JSON round trip),
+    # and a field that is still text on one side and already parsed on the other (level 0: parsed on first read)
+    l = gfapy.Line("S\ts1\t*\tLN:i:10")
+    l.set("xx", {1: "a", 2: [1, 2]})
+    pairs = [("JSON tag with integer keys", l, l.clone())]
+    for vlevel in (0, 1):
+        e = gfapy.Line("E\t*\ta+\tb-\t0\t10\t5\t15$\t10M\txx:J:[1,2]\tyy:B:i,1,2", vlevel=vlevel, version="gfa2")
+        c = e.clone()
+        pairs.append(("E line at level %d, just cloned" % vlevel, e, c))
+        e2 = gfapy.Line("E\t*\ta+\tb-\t0\t10\t5\t15$\t10M", vlevel=vlevel, version="gfa2")
+        c2 = e2.clone()
+        e2.alignment
+        pairs.append(("E line at level %d, alignment read on the original after cloning" % vlevel, e2, c2))
+    for what, a, b in pairs:
+        if str(a) != str(b):
+            return "%s: written forms differ: %r / %r" % (what, str(a), str(b))
+        if not (a == b) or not (b == a):
+            return "%s: the clone does not compare equal to the original (%r)" % (what, str(a))
     # the header of a Gfa whose H lines repeat a tag (the values are kept in one array per tag), for every datatype
     for dt, v1, v2 in (("J", "[1]", "{\"a\": [2]}"), ("i", "1", "2"), ("Z", "a", "b"), ("B", "c,-1", "f,1.5"), ("H", "0A", "0B"), ("f", "1.5", "2.5"), ("A", "x", "y")):
         g = gfapy.Gfa(["H\txx:%s:%s" % (dt, v1), "H\txx:%s:%s" % (dt, v2), "S\ta\t*"])
